@@ -30,6 +30,10 @@ CLAIMED = {
          "For every generated field (all layouts, empty entries, epochs, negated architectures, multi-term profile lists, substvars) the normalised text must be single-line canonical text of its own structure, sorted under the crate's public Ord, free of empty entries, strictly parseable, denote the same multiset of entries/alternatives/parts and substvars as the generator's model, agree with what the returned object reports, and be a fixed point."),
  "C14": ("round-trip and conversion oracle over lossy Relation/Relations values built from components (full factorial + random): lossy print/parse equality, lossless reading of the printed text, lossy<->lossless conversion equality and print agreement",
          "768-row factorial over name x version x archqual x architectures x profile lists plus random fields: to_string() must re-parse (lossy) to an equal value and be read by the lossless reader as the same structure; lossless::Relation::from(x) must print the same text and convert back to x; Entry <-> Vec<lossy::Relation> likewise."),
+ "C18": ("codec table monitor: exhaustive enumerations in both directions, rejection probes (all other keywords, case/padding variants, exhaustive short strings), generated records/VCS/DEP-3/licence/signed-by values; parse(print(v))==v and print(parse(canonical))==canonical",
+         "Every variant of the 7 closed enumerations round-trips in both directions; every keyword of every other enumeration with case, padding and suffix variants and every string of length <=3 (quick) / <=4 (thorough) over 23 symbols must be rejected unless it is in the type's set; checksum records, package-list entries (print determinism across instances), changes files, ParsedVcs/Vcs over all branch/subpath combinations, DEP-3 values with each category prefix (also read through the lossless header), licences, signed-by values and build profiles are generated and round-tripped."),
+ "C19": ("reference-model oracle for clear-sign unwrapping: generated messages (payload kinds incl. marker look-alikes and deb822 text), every line truncation with/without final newline, five kinds of trailing junk, unsigned pass-through, every line cut of the repository's InRelease file",
+         "For each generated message the unwrapped payload and concatenated signature must equal the generator's parts; every cut after a line must yield exactly the error of the phase the cut falls in (missing payload / missing signature / truncated signature), appended lines must yield junk-after-signature, and text not starting with the marker must come back unchanged with no signature."),
 }
 TODO = {}
 props = [json.loads(l) for l in open("/verif/properties.jsonl")]
